@@ -40,7 +40,7 @@ CLAIMS = {
         "zero-variance path; estimate_stats over at most N leading samples (Sum-term extensionality); the refresh schedule of "
         "RealQuantizer.quantize as a two-state invariant with ghost call counter (refresh exactly on calls 0,p,2p,.. / first call only); "
         "ComplexQuantizer = two independent real quantisers for all custom_stds forms - all discharged from the real source for arbitrary "
-        "array length and state. Bounded native probe covers float behaviour incl. constant arrays.",
+        "array length and state. Bounded native probe covers float behaviour incl. constant arrays. Also: the float->int64 cast only ever sees values already clipped to the code range (safety obligation, so huge samples saturate); ComplexQuantizer's components share its schedule and bit depth.",
    note="trusted: pyvc engine, numpy axioms (around half-even, clip, mean/std as Sum terms, ptp); reals for floats (zero-variance in floats is bounded-probe only)",
    technique="contract-based deductive verification (AST->z3/cvc5 VCs, two-state class invariant with ghost state, lemmas); bounded native replay"),
  'C10': dict(cat='proof', ref='DESIGN.md 2/C10',
@@ -56,7 +56,7 @@ CLAIMS = {
         "symbolic delays, request sizes and stream contents: for the first request and for a later request from an ARBITRARY state satisfying "
         "the cache invariant (N samples delivered, caches = last delay_i background samples) every output sample equals own(N+k) + "
         "background(N+k+max_delay-delay_i), the invariant is re-established (so every request sequence is covered by induction), omitted "
-        "delays mean zero, and resetting clears the carried-over background. Bounded native run compares with a same-seed reference background.",
+        "delays mean zero, and resetting clears the carried-over background. Bounded native run compares with a same-seed reference background. The later-request precondition models each cache as a *view* of the background stream's buffer (as the code leaves it), so a request that overwrites that buffer in place fails.",
    note="trusted: pyvc engine; ghost generator stream model; antenna count enumerated 1..3 (stated, not hidden); one noise + one signal source per stream",
    technique="contract-based deductive verification (Hoare triples with a two-state cache invariant, ghost stream positions); bounded native replay"),
  'C08': dict(cat='proof', ref='DESIGN.md 2/C08',
@@ -97,7 +97,7 @@ CLAIMS = {
         "each call site the frame's time axis is its own axis shifted by its start time relative to the first frame, and on normal AND "
         "exceptional exit (user callback raising in any frame) every frame's time axis equals what it was; overwrite_times spaces consecutive "
         "frames by exactly the slew time (sequential loop invariant). Frame.add_signal is used through its C01 contract, which is proved for "
-        "a shifted axis including the sub-sample grids.",
+        "a shifted axis including the sub-sample grids. Also: single-frame injection on a shifted time axis (sub-sample grids, smearing end points from the frame's own ts) - C01's contract, discharged again.",
    note="trusted: pyvc engine (heap model); (ts+o)-o = ts over the reals; overwrite_times assumes distinct positions hold distinct frames; consolidate is covered by the bounded native run only",
    technique="contract-based deductive verification (loop invariants over a symbolic heap, exceptional postcondition, modular call contract); bounded native replay"),
  'C04': dict(cat='proof', ref='DESIGN.md 2/C04',
@@ -107,7 +107,7 @@ CLAIMS = {
         "blocks loop (symbolic block count and blocks-per-file): every file holds whole header+BLOCSIZE blocks, blocks-per-file at a time, PKTIDX "
         "advances per block, pipeline-owned fields equal the configuration for any incoming dictionary, user cards are kept. Readers: "
         "read_header (loop invariant over a symbolic-length header), get_blocks_in_file for DIRECTIO 0/1/absent, get_total_blocks for every "
-        "directory listing order, from_data's header size - against the writer's layout. blimpy GuppiRaw agreement is bounded (native).",
+        "directory listing order, from_data's header size - against the writer's layout. blimpy GuppiRaw agreement is bounded (native). Also: samples_per_block (the PKTIDX step) is the number of time samples BLOCSIZE bytes hold for every antenna/polarisation/bit-depth configuration (constructor contract); header cards with END-prefixed user keys.",
    note="trusted: pyvc engine; string-length and file-counter models; collect_data_block/_make_header used through contracts inside record(); one antenna in the record contract; blimpy agreement bounded",
    technique="contract-based deductive verification (loop invariants with ghost counters, modular call contracts, symbolic file layout); bounded native replay with an independent reader"),
  'C07': dict(cat='other', ref='DESIGN.md 2/C07',
@@ -121,12 +121,12 @@ CLAIMS = {
    technique="contract-based deductive verification for the header/reader clauses; bounded native pipeline runs for tone localisation"),
  'C02': dict(cat='proof', ref='DESIGN.md 2/C02',
    text="collect_data_block's sub-block loop (symbolic sub-block count, windows per block, branches, channels, first channel; taps in "
-        "{1,2,3,8}; 1-2 pols; 8/4 bit; digitiser on/off; first or later block) carries an inductive invariant over ghost stream positions: "
+        "{1,2,3,8} (thorough: {1,2,3,4,5,8,16}); 1-2 pols; 8/4 bit; digitiser on/off; first or later block) carries an inductive invariant over ghost stream positions: "
         "each stage is called with exactly the next samples of its stream (call-site obligations against the C10/C09/C08 contracts), every "
         "(channel, time, polarisation, re/im) byte of the block equals the requantised spectrum at global position pos0+t of filterbank channel "
         "start_chan+c in GUPPI layout (4-bit: real high / imag low nibble), every value fits a signed byte, a block consumes exactly "
         "T*branches samples (+ one warm-up window), for every partition into sub-blocks incl. non-divisors. File/block loops of record(): C04. "
-        "Bounded native run: bytes vs a straight-line reference pipeline and bit-identical output for every partition.",
+        "Bounded native run: bytes vs a straight-line reference pipeline and bit-identical output for every partition. Also: both component quantisers of the requantiser are configured with the backend's schedule (constructor contract).",
    note="trusted: pyvc engine; stage contracts proved under C08/C09/C10 and used modularly; one antenna in the deductive contract; num_taps enumerated; FFT numerics bounded",
    technique="contract-based deductive verification (loop invariant with ghost stream positions, affine scatter inversion, stepwise window-arithmetic lemmas); bounded native reference pipeline"),
  'C14': dict(cat='proof', ref='DESIGN.md 2/C14',
@@ -136,7 +136,7 @@ CLAIMS = {
         "requantisation of (input sample at the same (c,t,p) + synthetic sample requantised with zero mean and gain channelized_stds x "
         "digitiser target deviation), the gain passed is the same in every sub-block and the filterbank's channelized_stds are never "
         "modified (frame condition inside the loop invariant), target means restored; requantize=False is rejected. from_data: header "
-        "size == the input's written header size for every card count (padded iff DIRECTIO != 0), same block size / bit depth / channel and block counts. Bounded native run: decode round trip, framing, flat added power per sub-block.",
+        "size == the input's written header size for every card count (padded iff DIRECTIO != 0), same block size / bit depth / channel and block counts. Bounded native run: decode round trip, framing, flat added power per sub-block. Also: every requantiser of a from_data backend and both of its components use the input's bit depth (4- and 8-bit inputs).",
    note="trusted: pyvc engine; input files follow the writer layout of C04; stage contracts modular; one antenna in the injection contract, taps enumerated; requantiser target statistics bounded only",
    technique="contract-based deductive verification (loop invariant incl. frame condition, modular stage contracts, symbolic file layout); bounded native replay"),
  'C11': dict(cat='other', ref='DESIGN.md 2/C11',
@@ -145,7 +145,7 @@ CLAIMS = {
         "returned array is exactly what was added, the generator advances one draw per pixel, first noise on an empty frame sets the estimates to "
         "the parameters (else exactly one sigma-clipped re-estimate), table sampling uses table entries / one common index / IndexError on "
         "unequal lengths, intensity and SNR are mutually inverse and raise without noise, stream deviations add in quadrature incl. the shared "
-        "background. NOT decidable by a contract: that numpy's samplers have the stated moments - an axiom here, probed by a bounded 6-sigma run.",
+        "background. NOT decidable by a contract: that numpy's samplers have the stated moments - an axiom here, probed by a bounded 6-sigma run. Also: the constructor sets k = 4*round(df*dt) for every construction route (C05's constructor contract, discharged again).",
    note="level 'other': the headline distributional clause is probabilistic and about a third-party sampler; everything else is discharged",
    technique="contract-based deductive verification for formulas/bookkeeping (ghost generator stream); bounded statistical run for the distributions"),
  'C12': dict(cat='other', ref='DESIGN.md 2/C12',
